@@ -10,7 +10,7 @@ LEVEL = 'exploration'
 RULE = ('Each run = seeded PBM configuration (admissible class counts) + operation history of up to 18/25 ops biased to transport steps; '
         'each step draws a growth field (physical a(1/R*-1/R)/R, all-positive, all-negative, sign-alternating with zeros, 18-decade range, linear with one sign change), '
         'a nucleation rate/radius (inside, at class boundaries, at both grid ends, below, above, the 0 sentinel), a step-size factor relative to the model limit and the Euler or RK4 calling pattern. '
-        'Non-trivial = at least one transport step executed; distinct = distinct record digest; signature = set of growth kinds, calling patterns, limit obeyed/exceeded, grid events seen.')
+        '30% of the transport steps pass a trial distribution that is not the stored one; recorded distributions are loaded back (setPSDtoRecordedTime). Non-trivial = at least one transport step executed; distinct = distinct record digest; signature = set of growth kinds, calling patterns, limit obeyed/exceeded, grid events seen.')
 ASSUMPTIONS = ['Admissible PBM configurations per the class docstring: even class counts, minBins <= maxBins/2, minBins <= bins <= maxBins.',
                'Sum rule / nucleation-class clause asserted for nucleation radii inside the grid (or zero rate); outside-grid deposits are reported under their own check id.',
                'Non-negativity asserted for classes whose two faces satisfy |g| dt <= 0.4 dR (the model\'s own limit).',
